@@ -113,6 +113,10 @@ mut("S24-copy-bounds-check-unchecked-addition", ["C11"], "src/protocol/per/unali
     "    if len <= BYTE_LEN * 2 {\n        return bit_string_copy(src, src_bit_position, dst, dst_bit_position, len);\n    }\n\n    // checked: a length near usize::MAX must be an error as well, not an overflow\n    if dst_bit_position\n        .checked_add(len)\n        .map_or(true, |end| dst.len() * BYTE_LEN < end)\n    {",
     "    if len <= BYTE_LEN * 2 {\n        return bit_string_copy(src, src_bit_position, dst, dst_bit_position, len);\n    }\n\n    // checked: a length near usize::MAX must be an error as well, not an overflow\n    if dst.len() * BYTE_LEN < dst_bit_position.wrapping_add(len) {",
     "part of the defect repaired in c4b8db5: the bulk path's destination check wraps for a length near usize::MAX (index out of bounds in release, too)")
+mut("S25-parser-nesting-limit-removed", ["C14"], "asn1rs-model/src/asn/model.rs",
+    "        let _nesting = TypeNestingGuard::enter(iter)?;\n",
+    "",
+    "the defect repaired in 2ad4dd1 (recursive descent without a nesting limit): needs the T-NEST classes of 5 000 / 40 000 levels (stack overflow of the worker process)")
 
 def sh(cmd, cwd=None, timeout=3600):
     p = subprocess.run(cmd, shell=True, cwd=cwd, stdout=subprocess.PIPE, stderr=subprocess.STDOUT, text=True, timeout=timeout)
